@@ -951,7 +951,10 @@ def run_C16(ctx):
         for cid, iraw in rr.impl.items():
             if cid in rr.model:
                 ctx.validated += 1
-                if rr.model[cid] != iraw:
+                # a field left by an earlier call may alias the probe buffer (the buffers of a history share one
+                # allocation): compare such fields by content, not by location (as in C18)
+                last = rr.cases[cid][4][-1][3]
+                if _bycontent(rr.model[cid], last) != _bycontent(iraw, last):
                     ctx.mismatch(rr.cases[cid], iraw, rr.model[cid])
     for i, (kind, cap, pre, cf, b) in enumerate(hist):
         o1 = resh.impl.get("c16r.%d.1" % i)
